@@ -63,9 +63,13 @@ CHECKS = {
              "shift-kind substitution, constant changes, dropped/duplicated/transposed stores, DUP/SWAP index) are given "
              "to the real compare_asm_block_asm_format under four option sets; every acceptance is decided by the SMT "
              "equivalence query over all machine states, a separating state is replayed on the concrete twin. "
-             "Reflexivity and exception-freedom are checked on every base block.",
-        note="Trusted: E1 semantics, z3. The external forves adapter is not exercised (no forves binary in the sandbox): "
-             "that clause of the property is outside the claim. Pairs outside the mutation families are not covered."),
+             "Reflexivity and exception-freedom are checked on every base block. External-checker adapter: compare_forves is run "
+             "with an ideal checker in place of the missing binary (it reads the adapter's file with an independent reader and "
+             "answers true exactly when the SMT query proves every rendered pair equivalent); every 'true' of the adapter is "
+             "decided by the SMT query on the original pair.",
+        note="Trusted: E1 semantics, z3. The forves binary is absent: the adapter (rendering, segment pairing, answer mapping) is "
+             "what is decided, with run_command rebound to an ideal checker (stub, in evidence); forves itself is not judged. "
+             "Pairs outside the mutation families are not covered."),
     "C06": dict(
         level="model_checking", design="5/C06", engine="z3 on the real .smt2 text + E3 Realize-SMT",
         technique="SMT model-set inclusion: hard constraints of the real encoding, linked through theta_to_instr to an independent "
